@@ -5,7 +5,13 @@ from gen_store import PAYLOADS, TIPS, bstr
 DELAYS = [0.0, 0.5, 1.0, 1.0, 2.0]
 
 
+# payload alphabet override (the Python twins need normalised JSON payloads)
+PAYLOADS_OVERRIDE = None
+
+
 def gen_msg(rng, small=True):
+    if PAYLOADS_OVERRIDE is not None:
+        return "%s %s" % (bstr(rng.choice(TIPS[:1] if small else TIPS)), bstr(rng.choice(PAYLOADS_OVERRIDE)))
     pl = PAYLOADS[:3] if small else PAYLOADS
     return "%s %s" % (bstr(rng.choice(TIPS[:1] if small else TIPS)), bstr(rng.choice(pl)))
 
